@@ -1,0 +1,22 @@
+//go:build verif
+
+package dnssvc
+
+import (
+	"github.com/AdguardTeam/AdGuardDNS/internal/dnsserver"
+	"github.com/AdguardTeam/AdGuardDNS/internal/dnssvc/internal/ratelimitmw"
+)
+
+// VerifC10MwConfig is the configuration of the access and ratelimiting
+// middleware, re-exported for the verification harness.
+type VerifC10MwConfig = ratelimitmw.Config
+
+// VerifC10Metrics is the metrics interface of the access and ratelimiting
+// middleware, re-exported for the verification harness.
+type VerifC10Metrics = ratelimitmw.Metrics
+
+// VerifC10NewMw returns the real access and ratelimiting middleware built from
+// c, so that the harness can drive it with its own fakes.
+func VerifC10NewMw(c *VerifC10MwConfig) (mw dnsserver.Middleware) {
+	return ratelimitmw.New(c)
+}
